@@ -68,6 +68,9 @@ pub enum FaultKind {
     /// E7 (reformatting tool): whitespace, comments and backslash-newline splices inserted at
     /// token boundaries inside text lines, chosen by the seed `a`
     Trivia,
+    /// E7 (editor / generator artefact): every text line gets a trailing line comment that makes it
+    /// longer than 240 bytes, with multi-byte characters at varying offsets
+    LongLines,
 }
 
 #[derive(Clone, Debug, PartialEq)]
@@ -120,6 +123,7 @@ pub fn kind_name(k: &FaultKind) -> &'static str {
         FaultKind::RealName => "real_name",
         FaultKind::Stale => "stale",
         FaultKind::Trivia => "trivia",
+        FaultKind::LongLines => "long_lines",
     }
 }
 
@@ -139,6 +143,7 @@ pub const ALL_KINDS: &[&str] = &[
     "real_name",
     "stale",
     "trivia",
+    "long_lines",
 ];
 
 fn kind_from_name(s: &str) -> Option<FaultKind> {
@@ -158,6 +163,7 @@ fn kind_from_name(s: &str) -> Option<FaultKind> {
         "real_name" => FaultKind::RealName,
         "stale" => FaultKind::Stale,
         "trivia" => FaultKind::Trivia,
+        "long_lines" => FaultKind::LongLines,
         _ => return None,
     })
 }
@@ -420,6 +426,7 @@ pub fn apply_content_faults(
                 }
             }
             FaultKind::Trivia => contents = insert_trivia(&contents, f.a),
+            FaultKind::LongLines => contents = long_lines(&contents, f.a),
             FaultKind::NotFound | FaultKind::NotText | FaultKind::RealName => {}
         }
         if contents != before {
@@ -427,6 +434,53 @@ pub fn apply_content_faults(
         }
     }
     Ok(contents)
+}
+
+/// Append a long trailing line comment with multi-byte characters to every line that is neither a
+/// directive nor inside a block comment nor spliced
+pub fn long_lines(text: &str, seed: u64) -> String {
+    let mut rng = crate::prng::Rng::new(seed).sub("long-lines");
+    let mut out = String::with_capacity(text.len() * 4);
+    let mut in_block = false;
+    for line in text.split_inclusive('\n') {
+        let body = line.trim_end_matches(['\n', '\r']);
+        let was_in = in_block;
+        let mut k = 0;
+        let b = body.as_bytes();
+        while k < b.len() {
+            if in_block {
+                if b[k] == b'*' && b.get(k + 1) == Some(&b'/') {
+                    in_block = false;
+                    k += 1;
+                }
+            } else if b[k] == b'/' && b.get(k + 1) == Some(&b'/') {
+                break;
+            } else if b[k] == b'/' && b.get(k + 1) == Some(&b'*') {
+                in_block = true;
+                k += 1;
+            }
+            k += 1;
+        }
+        let skip = was_in
+            || in_block
+            || body.trim_start().starts_with('#')
+            || body.ends_with('\\')
+            || body.contains('"');
+        out.push_str(body);
+        if !skip {
+            let mut pad = String::from(" // ");
+            let target = 236 + rng.below(12) as usize;
+            while body.len() + pad.len() < target {
+                pad.push('x');
+            }
+            for _ in 0..(8 + rng.below(8)) {
+                pad.push(['\u{2500}', '\u{e9}', '\u{65e5}', 'y', '\u{1f600}'][rng.below(5) as usize]);
+            }
+            out.push_str(&pad);
+        }
+        out.push_str(&line[body.len()..]);
+    }
+    out
 }
 
 /// Insert layout trivia at token boundaries of text lines. Conservative about what a boundary is:
@@ -659,7 +713,14 @@ impl<'a> SimFs<'a> {
                             if f.kind == FaultKind::RealName
                                 && matches!(&f.sel, Sel::File(n) if n == canonical)
                             {
-                                real_name = f.text.clone();
+                                // "<unique>": a handler that names the same file differently on
+                                // every request (naive path joining: a.h, inc/../a.h, ...)
+                                real_name = if f.text == "<unique>" {
+                                    format!("{}inc/../{canonical}", "inc/../".repeat(index as usize % 7))
+                                        + &format!("#{index}")
+                                } else {
+                                    f.text.clone()
+                                };
                                 fired.push("real_name");
                             }
                         }
